@@ -1097,3 +1097,10 @@ M("C19-string-payload-through-streambuf", "C19", "src/interrogatedb/interrogate_
 M("C12-benign-string-payload-write", "C12", "src/interrogatedb/interrogate_datafile.cxx",
   "  out << str.length() << whitespace;\n  if (!str.empty()) {\n    out << str << whitespace;", "  out << str.length() << whitespace;\n  if (!str.empty()) {\n    out.write(str.data(), str.size());\n    out << whitespace;",
   benign=True)
+
+M("C09-number-letters-taken-for-identifier", "C09", "src/cppparser/cppPreprocessor.cxx",
+  "    else if (isdigit(expr[p])) {\n      // A number.  Skip it whole, so that the letters of a hex or binary\n      // prefix, an exponent or a suffix (0x10, 0b11, 1e5, 1L, 10u) are not\n      // mistaken for an identifier to be expanded.\n      p++;\n      while (p < expr.size() &&\n             (isalnum(expr[p]) || expr[p] == '_' || expr[p] == '.' ||\n              (expr[p] == '\\'' && p + 1 < expr.size() && isalnum(expr[p + 1])) ||\n              ((expr[p] == '+' || expr[p] == '-') &&\n               (expr[p - 1] == 'e' || expr[p - 1] == 'E' ||\n                expr[p - 1] == 'p' || expr[p - 1] == 'P')))) {\n        p++;\n      }\n    }\n", "",
+  expect="R09.4|expand_manifests|number-consumed-whole")
+M("C09-benign-number-skip-isxdigit", "C09", "src/cppparser/cppPreprocessor.cxx",
+  "    else if (isdigit(expr[p])) {\n      // A number.  Skip it whole,", "    else if (isdigit(expr[p]) != 0) {\n      // A number.  Skip it whole,",
+  benign=True)
